@@ -20,6 +20,10 @@ type compilationScope struct {
 	Instructions []byte
 	SymbolInit   map[string]bool
 	SourceMap    map[int]parser.Pos
+
+	// loop stack of the enclosing function, saved while this scope is open
+	outerLoops     []*loop
+	outerLoopIndex int
 }
 
 // loop represents a loop construct that the compiler uses to track the current
@@ -397,6 +401,7 @@ func (c *Compiler) Compile(node parser.Node) error {
 		}
 
 		if err := c.Compile(node.Body); err != nil {
+			c.leaveScope()
 			return err
 		}
 
@@ -1087,11 +1092,17 @@ func (c *Compiler) currentSourceMap() map[int]parser.Pos {
 
 func (c *Compiler) enterScope() {
 	scope := compilationScope{
-		SymbolInit: make(map[string]bool),
-		SourceMap:  make(map[int]parser.Pos),
+		SymbolInit:     make(map[string]bool),
+		SourceMap:      make(map[int]parser.Pos),
+		outerLoops:     c.loops,
+		outerLoopIndex: c.loopIndex,
 	}
 	c.scopes = append(c.scopes, scope)
 	c.scopeIndex++
+	// loops do not extend into function literals: break/continue inside the
+	// new function must not refer to a loop of the enclosing function
+	c.loops = nil
+	c.loopIndex = -1
 	c.symbolTable = c.symbolTable.Fork(false)
 	if c.trace != nil {
 		c.printTrace("SCOPE", c.scopeIndex)
@@ -1104,6 +1115,8 @@ func (c *Compiler) leaveScope() (
 ) {
 	instructions = c.currentInstructions()
 	sourceMap = c.currentSourceMap()
+	c.loops = c.scopes[c.scopeIndex].outerLoops
+	c.loopIndex = c.scopes[c.scopeIndex].outerLoopIndex
 	c.scopes = c.scopes[:len(c.scopes)-1]
 	c.scopeIndex--
 	c.symbolTable = c.symbolTable.Parent(true)
